@@ -332,4 +332,67 @@ theorem waitEach_resolve (truth : Nat → Nat) (jobs0 : List Nat) (ops : List Op
         simp only [h0, if_false, Spec.waitEach, hj]
         rw [ih jobs hsub]
 
+/-! ### the executable loops of the driver are derivations of the relations -/
+
+theorem awaitJobRun_sound (runFuel : Nat) (choices : Nat → List Nat) :
+    ∀ (k : Nat) (jobs : List Nat) (s : Sys) (i : Nat) (jobs' : List Nat) (s' : Sys) (res : WaitRes),
+      awaitJobRun runFuel choices k jobs s i = (jobs', s', some res) →
+      AwaitJob i jobs s jobs' s' (some res) := by
+  intro k
+  induction k with
+  | zero => intro jobs s i jobs' s' res h; simp [awaitJobRun] at h
+  | succ k ih =>
+    intro jobs s i jobs' s' res h
+    unfold awaitJobRun at h
+    cases hjs : jobStatus jobs s.log i with
+    | some p =>
+      obtain ⟨r, j1⟩ := p
+      simp only [hjs, Prod.mk.injEq, Option.some.injEq] at h
+      obtain ⟨rfl, rfl, rfl⟩ := h
+      exact .brk hjs
+    | none =>
+      simp only [hjs] at h
+      split at h
+      · rename_i hfin
+        split at h
+        · simp at h
+        · rename_i hne
+          exact .again hjs ⟨run_steps _ _ _, hfin⟩ hne (ih _ _ _ _ _ _ h)
+      · simp at h
+
+theorem awaitJobsRun_sound (runFuel outer : Nat) (choices : Nat → List Nat) :
+    ∀ (ops : List (Option Nat)) (jobs : List Nat) (s : Sys) (jobs' : List Nat) (s' : Sys)
+      (rs : List WaitRes),
+      awaitJobsRun runFuel outer choices jobs s ops = some (jobs', s', rs) →
+      WaitOps jobs s ops jobs' s' rs true := by
+  intro ops
+  induction ops with
+  | nil =>
+    intro jobs s jobs' s' rs h
+    simp only [awaitJobsRun, Option.some.injEq, Prod.mk.injEq] at h
+    obtain ⟨rfl, rfl, rfl⟩ := h
+    exact .nil
+  | cons o t ih =>
+    intro jobs s jobs' s' rs h
+    cases o with
+    | none =>
+      simp only [awaitJobsRun] at h
+      split at h
+      · rename_i j1 s1 rs1 hrec
+        simp only [Option.some.injEq, Prod.mk.injEq] at h
+        obtain ⟨rfl, rfl, rfl⟩ := h
+        exact .notFound (ih _ _ _ _ _ hrec)
+      · simp at h
+    | some i =>
+      simp only [awaitJobsRun] at h
+      split at h
+      · rename_i j1 s1 res haw
+        split at h
+        · rename_i j2 s2 rs2 hrec
+          simp only [Option.some.injEq, Prod.mk.injEq] at h
+          obtain ⟨rfl, rfl, rfl⟩ := h
+          exact .job (awaitJobRun_sound _ _ _ _ _ _ _ _ _ haw) (ih _ _ _ _ _ hrec)
+        · simp at h
+      · simp at h
+
 end YashModel.Proc
